@@ -6,10 +6,10 @@ use chrono::{DateTime, Utc};
 use log::debug;
 use serde::Serialize;
 use snafu::{ensure, ResultExt};
-use std::io::ErrorKind;
+use std::io::{ErrorKind, Write};
 use std::path::{Path, PathBuf};
 use std::sync::Arc;
-use tempfile::TempDir;
+use tempfile::{NamedTempFile, TempDir};
 use tokio::sync::{Mutex, RwLock, RwLockReadGuard, RwLockWriteGuard};
 
 /// `Datastore` persists TUF metadata files.
@@ -59,14 +59,24 @@ impl Datastore {
     /// Writes a JSON metadata file in the datastore. This function is thread safe.
     pub(crate) async fn create<T: Serialize>(&self, file: &str, value: &T) -> Result<()> {
         let lock = &self.write().await;
-        let path = lock.path().join(file);
+        let dir = lock.path().to_owned();
+        let path = dir.join(file);
         let bytes = serde_json::to_vec(value).with_context(|_| error::DatastoreSerializeSnafu {
             what: format!("{file} in datastore"),
             path: path.clone(),
         })?;
-        tokio::fs::write(&path, bytes)
-            .await
-            .context(error::DatastoreCreateSnafu { path: &path })
+        // Write to a temporary file in the datastore directory and rename it into place, so that
+        // an interrupted or failed write never leaves a truncated file behind.
+        let target = path.clone();
+        tokio::task::spawn_blocking(move || {
+            let mut tmp = NamedTempFile::new_in(dir)?;
+            tmp.write_all(&bytes)?;
+            tmp.persist(target).map(|_| ()).map_err(|e| e.error)
+        })
+        .await
+        // We do not cancel the task nor do we expect it to panic
+        .unwrap_or_else(|_| unreachable!())
+        .context(error::DatastoreCreateSnafu { path: &path })
     }
 
     /// Deletes a file from the datastore. This function is thread safe.
